@@ -359,5 +359,8 @@ def extract_name(arg: InstrArg) -> str | None:
             return name
         case (bool(), str(name)):
             return name
+        case (bool(), bool(), str(name)):
+            # LOAD_SUPER_ATTR (Python 3.12+)
+            return name
         case _:
             return None
